@@ -163,6 +163,31 @@ static bool prog_magic_static() {
   return r0 == 1 + base && r1 == 9 + base && r2 == 4 + base;
 }
 
+// 12. a test-and-set spin lock (atomic_flag) around a critical section that contains scheduling points; typedef'd atomics,
+// the free-function interface and an atomic pointer
+static bool prog_spinlock() {
+  std::atomic_flag lk = ATOMIC_FLAG_INIT;
+  std::mutex inner;
+  std::atomic_int cnt{0};
+  std::atomic<int *> ptr{nullptr};
+  static int cells[4];
+  int plain = 0;
+  auto body = [&] {
+    for (int i = 0; i < 3; i++) {
+      while (lk.test_and_set(std::memory_order_acquire)) {}
+      { std::lock_guard<std::mutex> g(inner); plain++; }
+      lk.clear(std::memory_order_release);
+      std::atomic_fetch_add(&cnt, 1);
+    }
+  };
+  std::thread a(body), b(body);
+  ptr.store(cells);
+  ptr.fetch_add(1);
+  ++ptr;
+  a.join(); b.join();
+  return plain == 6 && std::atomic_load(&cnt) == 6 && ptr.load() == cells + 2;
+}
+
 struct Prog { const char *name; bool (*fn)(); bool expect_always_ok; bool needs_spurious; };
 static const Prog PROGS[] = {
     {"correct-handover", prog_correct, true, false},
@@ -176,6 +201,7 @@ static const Prog PROGS[] = {
     {"recursive/shared/timed mutex, cv_any, call_once", prog_vocabulary, true, false},
     {"polling an atomic (with/without yield): fairness", prog_spin, true, false},
     {"contended function-local static", prog_magic_static, true, false},
+    {"atomic_flag spin lock, atomic typedefs/free functions", prog_spinlock, true, false},
 };
 
 static void quiet_fail(int, const char *) { _exit(42); }
